@@ -305,26 +305,44 @@ def run_x6_x7(chk, repo):
     X6 = chk.rule('X6', 'covariate statistics (mean, median, std): the default branch aggregates per individual first '
                         '(groupby on the subject) in every sibling', floor=3)
     cm = repo.module('pharmpy.modeling.covariate_effect')
-    sib = {n: cm.functions.get(n) for n in ('_calculate_mean', '_calculate_median', '_calculate_std')}
-    if any(v is None for v in sib.values()):
-        raise AnalysisError('X6: _calculate_mean / _median / _std not found')
-    forms = {}
-    for name, f in sib.items():
-        # the branch taken when `baselines` is false: the else branch of `if baselines`, or the code after it
+    # the three statistics are found where they are stored (`statistics['mean'] = ...`); the value is either computed in
+    # place or by a sibling helper (`_calculate_mean(...)`), whose default branch is then looked at
+    def default_branch_groups(f):
         I = next((x for x in f.node.body if isinstance(x, ast.If) and 'baselines' in unparse(x.test)), None)
         tail = (I.orelse or f.node.body[f.node.body.index(I) + 1:]) if I is not None else f.node.body
         rets = [r.value for s_ in tail for r in ast.walk(s_) if isinstance(r, ast.Return) and r.value is not None]
         if not rets:
-            raise AnalysisError(f'X6: default branch of {name} not found')
+            raise AnalysisError(f'X6: default branch of {f.name} not found')
         cfg = CFG(f.node)
         node_id = reach.node_containing(cfg, rets[-1])
         e = reach.expand_expr(cfg, node_id, rets[-1]) if node_id is not None else rets[-1]
-        forms[name] = any(isinstance(c, ast.Call) and isinstance(c.func, ast.Attribute) and c.func.attr == 'groupby'
-                          for c in ast.walk(e))
-        chk.instance(X6, f'{name}: default branch `{unparse(e)[:70]}` groups by individual: {forms[name]}')
+        return e
+    sib = {}
+    forms = {}
+    for g in cm.functions.values():
+        gcfg = None
+        for a_ in walk_no_nested(g.node):
+            if isinstance(a_, ast.Assign) and isinstance(a_.targets[0], ast.Subscript) \
+                    and isinstance(a_.targets[0].slice, ast.Constant) and a_.targets[0].slice.value in ('mean', 'median', 'std'):
+                stat = a_.targets[0].slice.value
+                v = a_.value
+                callee = cm.functions.get(dotted(v.func) or '') if isinstance(v, ast.Call) else None
+                if callee is not None:
+                    e = default_branch_groups(callee)
+                    sib[stat] = callee
+                else:
+                    gcfg = gcfg or CFG(g.node)
+                    at = reach.node_containing(gcfg, v)
+                    e = reach.expand_expr(gcfg, at, v) if at is not None else v
+                    sib[stat] = g
+                forms[stat] = any(isinstance(c, ast.Call) and isinstance(c.func, ast.Attribute) and c.func.attr == 'groupby'
+                                  for c in ast.walk(e))
+                chk.instance(X6, f'{stat}: `{unparse(e)[:70]}` groups by individual: {forms[stat]}')
+    if set(forms) != {'mean', 'median', 'std'}:
+        raise AnalysisError(f'X6: the statistics mean / median / std were not all found (found {sorted(forms)})')
     if len(set(forms.values())) != 1 or not all(forms.values()):
         odd = [n for n, v in forms.items() if not v]
-        chk.violation(X6, cm.rel, ', '.join(odd) or '_calculate_*', f'per-individual aggregation: {forms}',
+        chk.violation(X6, cm.rel, ', '.join(sib[o].name for o in odd) or '_calculate_*', f'per-individual aggregation: {forms}',
                       'the documented statistic is computed per individual first and then over the individuals; one sibling '
                       'pools all records, so individuals with more records weigh more', line=sib[odd[0]].node.lineno if odd else 1,
                       witness='a user effect string with the mean placeholder on data with different numbers of records per '
@@ -337,31 +355,46 @@ def run_x6_x7(chk, repo):
         raise AnalysisError('remove_iiv not found')
     cfg = CFG(f.node)
     n7 = 0
+    # names that run over the terms of an expression: `for arg in expr.args`
+    term_vars = {L.target.id for L in ast.walk(f.node) if isinstance(L, ast.For) and isinstance(L.target, ast.Name)
+                 and unparse(L.iter).endswith('.args')}
+
+    def is_term(key):
+        return (isinstance(key, ast.Subscript) and 'args' in unparse(key)) or (isinstance(key, ast.Name) and key.id in term_vars)
     for nd in cfg.nodes.values():
         a = nd.ast
         if nd.kind != 'stmt' or not isinstance(a, ast.Assign):
             continue
         for c in [x for x in ast.walk(a.value) if isinstance(x, ast.Call) and isinstance(x.func, ast.Attribute)
-                  and x.func.attr == 'subs' and x.args and isinstance(x.args[0], ast.Dict) and len(x.args[0].keys) == 1]:
-            key, val = x_key_val = (c.args[0].keys[0], c.args[0].values[0])
-            if not (isinstance(val, ast.Constant) and val.value == 0 and isinstance(key, ast.Subscript)
-                    and 'args' in unparse(key)):
-                continue
-            n7 += 1
-            term = unparse(key)
+                  and x.func.attr == 'subs' and x.args]:
+            # the mapping may be chosen by a conditional expression: {term: 0} if <test> else {eta: 0}
+            arg0 = c.args[0]
+            cands = [(arg0, None)]
+            if isinstance(arg0, ast.IfExp):
+                cands = [(arg0.body, (arg0.test, 'true')), (arg0.orelse, (arg0.test, 'false'))]
+            for d_, cond in cands:
+                if not (isinstance(d_, ast.Dict) and len(d_.keys) == 1):
+                    continue
+                key, val = d_.keys[0], d_.values[0]
+                if not (isinstance(val, ast.Constant) and val.value == 0 and key is not None and is_term(key)):
+                    continue
+                n7 += 1
+                term = unparse(key)
 
-            def is_exp(e, term=term):
-                if isinstance(e, ast.Compare) and len(e.ops) == 1 and isinstance(e.ops[0], (ast.Eq, ast.Is)) \
-                        and unparse(e.left).startswith(term) and unparse(e.left).endswith('.func') \
-                        and unparse(e.comparators[0]).endswith('exp'):
-                    return True
-                return None
-            ok = bool(G_.guarded(cfg, nd.id, is_exp))
-            chk.instance(X7, f'remove_iiv: `{unparse(c)[:60]}` under a test `{term}.func == exp`: {ok}')
-            if not ok:
-                chk.violation(X7, pm.rel, f.name, unparse(c)[:100],
-                              'a term that only contains an exponential (a product with exp(eta) after expansion) is dropped '
-                              'as a whole instead of setting the eta to zero', line=nd.line,
-                              witness='CL = (TVCL + THETA(4)*WGT)*EXP(ETA(1)); remove_iiv gives CL = 0')
+                def is_exp(e, term=term):
+                    if isinstance(e, ast.Compare) and len(e.ops) == 1 and isinstance(e.ops[0], (ast.Eq, ast.Is)) \
+                            and unparse(e.left).startswith(term) and unparse(e.left).endswith('.func') \
+                            and unparse(e.comparators[0]).endswith('exp'):
+                        return True
+                    return None
+                ok = bool(G_.guarded(cfg, nd.id, is_exp))
+                if not ok and cond is not None:
+                    ok = G_.edge_label(cond[0], is_exp, G_.resolver(cfg, nd.id)) == cond[1]
+                chk.instance(X7, f'remove_iiv: `{unparse(c)[:60]}` under a test `{term}.func == exp`: {ok}')
+                if not ok:
+                    chk.violation(X7, pm.rel, f.name, unparse(c)[:100],
+                                  'a term that only contains an exponential (a product with exp(eta) after expansion) is dropped '
+                                  'as a whole instead of setting the eta to zero', line=nd.line,
+                                  witness='CL = (TVCL + THETA(4)*WGT)*EXP(ETA(1)); remove_iiv gives CL = 0')
     if n7 == 0:
         raise AnalysisError('X7: replacement of a whole term by 0 not found in remove_iiv')
